@@ -331,22 +331,32 @@ pub(crate) fn mode(entry: &VfsEntry, octal: u32, sym: &str) -> RvResult<u32> {
     let mut chars: Vec<char> = sym.chars().rev().collect();
 
     let mut state = State::Target;
+    let mut skip = false; // clause targets another entry kind: validate it but don't apply it
+    let mut complete = false; // a full clause has been consumed
     while let Some(mut c) = chars.pop() {
         match state {
             State::Target => {
                 group = 0; // reset group for next chmod
                 op = '0'; // reset op for next chmod
+                skip = false;
+                complete = false;
+                let mut targets = 0;
 
                 loop {
                     if c != 'd' && c != 'f' && c != 'a' && c != ':' {
                         return Err(VfsError::InvalidChmodTarget(sym.to_string()).into());
                     }
-                    if entry.is_symlink() || (c == 'd' && !entry.is_dir()) || (c == 'f' && !entry.is_file()) {
-                        return Ok(mode); // target mismatch so just return the original mode
-                    } else if c == ':' {
+                    if (c == 'd' && !entry.is_dir()) || (c == 'f' && !entry.is_file()) {
+                        skip = true; // target mismatch so this clause doesn't apply
+                    }
+                    if c == ':' {
+                        if targets == 0 {
+                            return Err(VfsError::InvalidChmodTarget(sym.to_string()).into());
+                        }
                         state = State::Group;
                         break;
                     }
+                    targets += 1;
                     c = _pop(&mut chars, sym)?;
                 }
             },
@@ -403,13 +413,19 @@ pub(crate) fn mode(entry: &VfsEntry, octal: u32, sym: &str) -> RvResult<u32> {
                 }
 
                 // Process permission
-                match op {
-                    '-' => mode &= !(group & perm),
-                    '+' => mode |= group & perm,
-                    _ => mode = (!group & mode) | (group & perm),
+                complete = true;
+                if !skip {
+                    match op {
+                        '-' => mode &= !(group & perm),
+                        '+' => mode |= group & perm,
+                        _ => mode = (!group & mode) | (group & perm),
+                    }
                 }
             },
         }
+    }
+    if !complete {
+        return Err(VfsError::InvalidChmod(sym.to_string()).into());
     }
 
     Ok(mode)
